@@ -37,6 +37,14 @@ pub struct Program {
     pub departure: Departure,
     pub away: Vec<Op>,
     pub during: Vec<Op>,
+    /// false: the writer spreads its writes over the first second of the join; true: it writes at the
+    /// instant the primary can read the joiner's `replicate-since` request (the catch-up computation)
+    #[serde(default)]
+    pub during_at_sync: bool,
+    /// number of extra keys written while the node is away (a catch-up longer than the 100-message
+    /// channel of the replication link)
+    #[serde(default)]
+    pub bulk: u32,
 }
 
 const DBN: [&str; 3] = ["d", "e", "f"];
@@ -102,7 +110,9 @@ fn gen(rng: &mut Rng) -> Program {
     let away = gen_ops(rng, na, ndbs, &mut created, true);
     let nd = rng.range(0, 3) as usize;
     let during = gen_ops(rng, nd, ndbs, &mut created, false);
-    Program { strategies, before, departure, away, during }
+    let during_at_sync = rng.chance(1, 2);
+    let bulk = if rng.chance(1, 12) { rng.range(90, 260) as u32 } else { 0 };
+    Program { strategies, before, departure, away, during, during_at_sync, bulk }
 }
 
 struct Outcome {
@@ -203,10 +213,25 @@ fn execute(prog: Program) -> Outcome {
             w.declutter_tick(0, 10_000);
         }
     }
+    if prog.bulk > 0 {
+        if cur != Some(0) {
+            admin.exec(&format!("use-db {} tok0", DBN[0]));
+            cur = Some(0);
+        }
+        for j in 0..prog.bulk {
+            // (a value whose first word is a number survives the catch-up format of the pinned tree as
+            //  a present key; only the presence of these keys is judged)
+            admin.exec(&format!("set bulk{} 1 b{}", j, j));
+        }
+    }
     sleep_ms(20);
     out.setup = Ok(());
     let full_before = with(|k| k.stats.probes.get("full_sync").copied().unwrap_or(0));
     // (re)join, with writes on the primary racing the synchronisation
+    let at_sync = prog.during_at_sync;
+    if at_sync {
+        with(|k| k.net.line_log = Some(Vec::new()));
+    }
     w.boot(1, &addrs);
     let during = prog.during.clone();
     let strategies = prog.strategies.clone();
@@ -214,9 +239,31 @@ fn execute(prog: Program) -> Outcome {
     let h = spawn_on_node(&w, 0, "writer-during-sync", move || {
         let mut s = Session::admin(&d0c);
         let mut cur = None;
+        if at_sync {
+            // become runnable at the instant the primary can read the joiner's catch-up request: the
+            // writes then interleave (at lock granularity) with the catch-up computation itself
+            let deadline = kernel::now() + 20_000 * kernel::MS;
+            kernel::wait(
+                kernel::Wait::Cond(std::rc::Rc::new(move |k: &kernel::Kernel| {
+                    if k.now >= deadline {
+                        return kernel::Ready::Yes;
+                    }
+                    let hit = k.net.line_log.as_ref().and_then(|l| l.iter().find(|r| r.to == Some(0) && r.line.starts_with("replicate-since")).map(|r| r.deliver_at));
+                    match hit {
+                        Some(t) if t <= k.now => kernel::Ready::Yes,
+                        Some(t) => kernel::Ready::At(t),
+                        None => kernel::Ready::At(deadline),
+                    }
+                })),
+                false,
+            );
+            with(|k| k.fault("write_at_catch_up"));
+        }
         for op in during.iter() {
-            // spread the writes over the first second of the join
-            sleep_ms(300);
+            if !at_sync {
+                // spread the writes over the first second of the join
+                sleep_ms(300);
+            }
             apply(&mut s, &mut cur, op, &strategies);
         }
     });
@@ -248,6 +295,7 @@ fn execute(prog: Program) -> Outcome {
             _ => None,
         })
         .collect();
+    let mut bulk_missing: Vec<String> = Vec::new();
     for (db, (strat, keys)) in pd.iter() {
         if db == "$admin" {
             continue;
@@ -273,6 +321,12 @@ fn execute(prog: Program) -> Outcome {
             out.compared_keys += 1;
             let a = keys.get(k).filter(|e| !e.deleted);
             let b = okeys.get(k).filter(|e| !e.deleted);
+            if k.starts_with("bulk") {
+                if a.is_some() && b.is_none() {
+                    bulk_missing.push(k.clone());
+                }
+                continue;
+            }
             let written_during = dbi.map(|i| during_keys.iter().any(|(d, kk)| *d == i && kk == k)).unwrap_or(false);
             let phase = if written_during { "written-during-sync" } else { "written-before-join" };
             match (a, b) {
@@ -305,6 +359,13 @@ fn execute(prog: Program) -> Outcome {
             }
         }
     }
+    if !bulk_missing.is_empty() {
+        out.violations.push(Violation::new(
+            "catch-up-truncated",
+            mode.to_string(),
+            format!("{}: {} of the {} keys written while the node was away are absent on the joined node (first: {})", mode, bulk_missing.len(), prog.bulk, bulk_missing[0]),
+        ));
+    }
     // one report per class is enough
     let mut seen = std::collections::BTreeSet::new();
     out.violations.retain(|v| seen.insert(v.sig()));
@@ -322,7 +383,7 @@ impl Property for C05 {
         (3_000, 100_000)
     }
     fn rule(&self) -> &'static str {
-        "a primary with a history of 1-10 operations of {set (values: single word, multi-word, numeric, numeric first word, empty, UTF-8), remove, increment, create-db (3 strategies), snapshot} over 1-3 databases, split into before-departure / while-away / during-sync parts; the second node has never been up (empty disk), was killed, or was shut down by SIGINT (with or without a snapshot on its disk), then (re)joins through the real join / election / replicate-since protocol while a writer keeps writing on the primary; at quiescence the joined node's dump must equal the primary's for every database (token, strategy, every key's value, version, removed keys absent). Runs where the join itself does not settle are discarded unless a node panicked. Non-trivial: the join settled and at least one key was compared. distinct = distinct (program, task-switch sequence)."
+        "a primary with a history of 1-10 operations of {set (values: single word, multi-word, numeric, numeric first word, empty, UTF-8), remove, increment, create-db (3 strategies), snapshot} over 1-3 databases, split into before-departure / while-away / during-sync parts (the during-sync writes are either spread over the first second of the join or issued at the very instant the primary can read the joiner's replicate-since request, so that they interleave with the catch-up computation; one history in twelve adds 90-260 keys while the node is away, a catch-up longer than the link's 100-message channel); the second node has never been up (empty disk), was killed, or was shut down by SIGINT (with or without a snapshot on its disk), then (re)joins through the real join / election / replicate-since protocol while a writer keeps writing on the primary; at quiescence the joined node's dump must equal the primary's for every database (token, strategy, every key's value, version, removed keys absent). Runs where the join itself does not settle are discarded unless a node panicked. Non-trivial: the join settled and at least one key was compared. distinct = distinct (program, task-switch sequence)."
     }
     fn components(&self) -> Json {
         json!({"real": ["start_sync_process / replicate-since", "get_pendding_opps_since (full and incremental)", "parse_replicate_command on the receiver", "oplog + last_op_time", "start_db restart path (oplog valid / discarded)", "join + election"],
